@@ -158,6 +158,9 @@ def _cond_key(d):
     """Normalise a castling-related condition: ("right", bit) | ("empty", mask) | ("attacked", colour, square)."""
     d = unstamp(d)
     s = show(d)
+    if d[0] == "un" and d[1] == "Not":
+        inner = _cond_key(d[2])
+        return (inner[0], not inner[1]) if inner is not None else None
     if d[0] == "call" and d[1].startswith("owlchess::movegen::do_is_cell_attacked::<owlchess::generic::"):
         col = d[1].split("generic::")[1].rstrip(">")
         sqe = d[2][1]
@@ -214,19 +217,23 @@ def castling_rule(ctx, facts, rid):
         fb = FxBuilder(facts, stop=STOP)
         tree = fb.tree(insts[0])
         gen_conds = {}
-        for n_, conds, _inl in walk_tree(tree):
-            if n_[0] == "call" and "push" in n_[1] and len(n_[3]) > 1:
-                mv = unstamp(n_[3][1])
-                if mv[0] == "agg" and mv[1] == MOVE and mv[3][0][0] == "const":
-                    cs = {}
-                    for d, lab, _cv in conds:
-                        ck = _cond_key(d)
-                        if ck is None:
-                            continue
-                        key_, pos = ck
-                        truth = not (lab != "else" and 0 in lab)
-                        cs[key_] = truth if pos else (not truth)
-                    gen_conds.setdefault(mv[3][0][1], []).append((cs, mv))
+        # path-wise: the conditions on the way to each emission, with merged values resolved along the path (so a helper that
+        # returns the conjunction, or a local holding it, is looked through)
+        for events, choices in tree_paths(tree):
+            cs = {}
+            for e in events:
+                if e[0] == "branch":
+                    d = path_value(e[1], choices)
+                    ck = _cond_key(d)
+                    if ck is None:
+                        continue
+                    key_, pos = ck
+                    truth = not (e[2] != "else" and 0 in e[2])
+                    cs[key_] = truth if pos else (not truth)
+                elif e[0] == "call" and "push" in e[1] and len(e[3]) > 1:
+                    mv = unstamp(path_value(e[3][1], choices))
+                    if mv[0] == "agg" and mv[1] == MOVE and mv[3][0][0] == "const":
+                        gen_conds.setdefault(mv[3][0][1], []).append((dict(cs), mv))
         for kind, sp in spec.items():
             bit = 2 * c + sp["side"]
             want = {("right", bit): True, ("empty", ref_pass(c, sp["side"])): True, ("attacked", opp, e_sq): False,
